@@ -29,17 +29,24 @@ Record cfg := {
   bE : option Z; bU : option Z; bS : option Z;
   sides : list side_cfg }.
 
-(* observable events: set_epoch calls received by the main sampler and the
-   (is_full_batch, index) stream; Main/Side are distinguished in the model only,
-   [render] forgets the distinction *)
+(* observable events: set_epoch calls received by the main sampler, the calls
+   of iter(main_sampler) (IterStart e: "for main_idx in self.main_sampler"
+   evaluates iter() now; e = the epoch whose iteration [main_iter e] the loop
+   consumes, which for a sampler object is the epoch it HOLDS at that moment -
+   a sampler that fixes its order eagerly in __iter__ reads it exactly here) and
+   the (is_full_batch, index) stream; Main/Side are distinguished in the model
+   only, [render] forgets the distinction *)
 Inductive event :=
 | SetEpoch (e : Z)
+| IterStart (e : Z)
 | Main (full : bool) (idx : Z)
 | Side (cfgidx : nat) (full : bool) (idx : Z).
 
-(* OSideSetEpoch: a set_epoch call received by a side sampler; the code never
+(* OIterStart e: iter(main_sampler) was called while the sampler object held
+   epoch e (its last set_epoch, or whatever it held before the run).
+   OSideSetEpoch: a set_epoch call received by a side sampler; the code never
    makes one, so the model never produces it *)
-Inductive obs := OSetEpoch (e : Z) | OYield (full : bool) (idx : Z) | OSideSetEpoch (ci : nat) (e : Z).
+Inductive obs := OSetEpoch (e : Z) | OIterStart (e : Z) | OYield (full : bool) (idx : Z) | OSideSetEpoch (ci : nat) (e : Z).
 
 Definition or_default (o : option Z) (d : Z) : Z := match o with Some x => x | None => d end.
 Definition is_some {A} (o : option A) : bool := match o with Some _ => true | None => false end.
@@ -150,16 +157,20 @@ Fixpoint epoch_loop (c : cfg) (l : list Z) (sie : Z) (s : st) : list event * st 
         let '(evs, s'', stt) := epoch_loop c l' sie' s' in (Main false i :: evs, s'', stt)
   end.
 
-(* "while True": one iteration per unit of fuel; None = out of fuel *)
+(* "while True": one iteration per unit of fuel; None = out of fuel.
+   "self.main_sampler.set_epoch(epoch)" comes first, then the for statement
+   evaluates iter(self.main_sampler): the sampler object holds [epoch s] from
+   the announcement on, so its iteration is [main_iter (epoch s)] whether it
+   reads the epoch in __iter__ (eager) or at the first next() (generator) *)
 Fixpoint run (c : cfg) (main_iter : Z -> list Z) (fuel : nat) (s : st) : option (list event) :=
   match fuel with
   | O => None
   | S fuel' =>
       let '(evs, s', stt) := epoch_loop c (main_iter (epoch s)) 0 s in
       match stt with
-      | Done => Some (SetEpoch (epoch s) :: evs)
+      | Done => Some (SetEpoch (epoch s) :: IterStart (epoch s) :: evs)
       | _ => match run c main_iter fuel' s' with
-             | Some rest => Some (SetEpoch (epoch s) :: evs ++ rest)
+             | Some rest => Some (SetEpoch (epoch s) :: IterStart (epoch s) :: evs ++ rest)
              | None => None
              end
       end
@@ -274,9 +285,38 @@ Definition sampler_iter (c : cfg) (main_iter : Z -> list Z) (e u s : Z) (pcs0 : 
     if (e =? 0) && (u =? 0) && (s =? 0) then Some (eval_loop c 0 (offsets c) (sides c) pcs0) else None
   else run c main_iter (default_fuel c (init_state e u s pcs0)) (init_state e u s pcs0).
 
+(* the main sampler object holds an epoch ([ann]: what it held before this
+   iteration of the InterleavedSampler - None = never announced); set_epoch
+   overwrites it; [held] lists what the object holds at each call of its
+   __iter__ (what an eagerly ordering sampler reads) *)
+Fixpoint held (ann : option Z) (l : list event) : list (option Z) :=
+  match l with
+  | [] => []
+  | SetEpoch e :: l' => held (Some e) l'
+  | IterStart _ :: l' => ann :: held ann l'
+  | _ :: l' => held ann l'
+  end.
+
+(* the epochs whose iteration [main_iter e] the loop consumes, in order *)
+Fixpoint iter_labels (l : list event) : list Z :=
+  match l with
+  | [] => []
+  | IterStart e :: l' => e :: iter_labels l'
+  | _ :: l' => iter_labels l'
+  end.
+
+(* the program state an InterleavedSampler object shares with others: the epoch
+   the main sampler object holds and how often every side sampler object was
+   iterated.  The InterleavedSampler itself carries no state from one iteration
+   to the next: [iterate] takes the constructed attributes and returns the stream *)
+Record world := { w_held : option Z; w_pcs : list nat }.
+Definition iterate (c : cfg) (mi : Z -> list Z) (e u s : Z) (w : world) : option (list event) :=
+  sampler_iter c mi e u s (w_pcs w).
+
 Definition render1 (e : event) : obs :=
   match e with
   | SetEpoch x => OSetEpoch x
+  | IterStart x => OIterStart x
   | Main f i => OYield f i
   | Side _ f i => OYield f i
   end.
